@@ -14,6 +14,8 @@ import (
 	"github.com/google/badwolf/storage"
 	"github.com/google/badwolf/storage/memory"
 	"github.com/google/badwolf/triple"
+	"github.com/google/badwolf/triple/node"
+	"github.com/google/badwolf/triple/predicate"
 )
 
 // Stage says where a statement stopped.
@@ -63,11 +65,51 @@ func Load(ctx context.Context, st storage.Store, data Data) {
 			panic("bq.Load: " + err.Error())
 		}
 		if len(ts) > 0 {
-			if err := g.AddTriples(ctx, ts); err != nil {
+			// The contents are reached through a history, not by one insertion
+			// ("for any contents of the queried graphs"): for every triple three
+			// neighbours sharing two of its components (and so its S+P, P+O and
+			// S+O index buckets) are added with the data and removed again; the
+			// graph ends up holding exactly ts.
+			junk := loadJunk(ts)
+			if err := g.AddTriples(ctx, append(append([]*triple.Triple{}, junk...), ts...)); err != nil {
+				panic("bq.Load: " + err.Error())
+			}
+			if err := g.RemoveTriples(ctx, junk); err != nil {
+				panic("bq.Load: " + err.Error())
+			}
+			if err := g.AddTriples(ctx, ts[:1]); err != nil {
 				panic("bq.Load: " + err.Error())
 			}
 		}
 	}
+}
+
+var (
+	junkNode, _ = node.NewNodeFromStrings("/u", "zzjunk")
+	junkPred, _ = predicate.NewImmutable("zzjunk")
+)
+
+// loadJunk returns, for every triple of ts, the three triples obtained by
+// replacing one component with a value that occurs in no generated data.
+func loadJunk(ts []*triple.Triple) []*triple.Triple {
+	var res []*triple.Triple
+	for _, t := range ts {
+		for k := 0; k < 3; k++ {
+			s, p, o := t.Subject(), t.Predicate(), t.Object()
+			switch k {
+			case 0:
+				s = junkNode
+			case 1:
+				p = junkPred
+			default:
+				o = triple.NewNodeObject(junkNode)
+			}
+			if j, err := triple.New(s, p, o); err == nil {
+				res = append(res, j)
+			}
+		}
+	}
+	return res
 }
 
 // TableRows canonicalises a result table over the given output bindings.
